@@ -208,13 +208,25 @@ func c18() {
 			if len(list) == 0 {
 				return nil
 			}
-			switch r.Intn(4) {
+			switch r.Intn(6) {
 			case 0:
 				return []string{strings.Join(list, ",")}
 			case 1:
 				return []string{strings.Join(list, "; ")}
 			case 2:
 				return []string{strings.Join(list, " ")}
+			case 3, 4:
+				// the other separators the flag accepts (any Unicode white space, comma, semicolon), repeated, mixed, leading and trailing
+				seps := []string{"\t", "\n", "\r\n", "\v", "\f", "\u00a0", "\u0085", "\u2003", "\u3000", "\u2028", ",,", " , ", ";;", ",;", " \t "}
+				s := []string{"", " ", ",", "\u00a0"}[r.Intn(4)]
+				for k, nm := range list {
+					if k > 0 {
+						s += seps[r.Intn(len(seps))]
+					}
+					s += nm
+				}
+				run.Count("flag_values_with_unusual_separators", 1)
+				return []string{s + []string{"", " ", ";", "\u2003\n"}[r.Intn(4)]}
 			}
 			return list // one flag per name
 		}
@@ -382,10 +394,17 @@ func c18() {
 	// thorough: the generated Go code is compiled and run to read the profile back;
 	// the YAML is consumed by the real sandbox command with a probing target
 	c18Consumers(run, o, ts, prof, elf[""])
+	c18ForeignMachines(run, o, ts, prof, elf[""])
 
 	run.Set("runs_by_discovered_shape", sizes)
 	run.Assume("the discovered multiset is fixed by the generated listing (site model), the scripted fake `go` stands in for `go tool objdump`",
-		"-b and -allow sets are disjoint, as the statement requires; names come from the kernel UAPI tables that the package also lists")
+		"-b and -allow sets are disjoint, as the statement requires; names come from the kernel UAPI tables that the package also lists",
+		"flag values are split at Unicode white space, commas and semicolons (any run of them), as the flag's parser on the pinned tree does",
+		"foreign-machine inputs are the amd64 Go ELF file with only e_machine changed; EM_386, EM_ARM, EM_X86_64 and EM_AARCH64 are not judged there")
+	if run.Violations() == 0 {
+		run.Require("elf_machine_types_offered", 250)
+		run.Require("flag_values_with_unusual_separators", 10)
+	}
 	if run.Violations() == 0 {
 		run.Require("profiler_runs", int64(n*9/10))
 		run.Require("profiles_loaded_back", 20)
@@ -518,4 +537,75 @@ func c18Consumers(run *vlib.Run, o *vlib.Oracles, ts []*vlib.Target, prof, elfAm
 		run.Count("generated_code_compiled_and_run", 1)
 		th.Remove()
 	}
+}
+
+// c18ForeignMachines: the same Go ELF file with every other machine type in its header. A profile may only hold names
+// valid for the binary's architecture, so for a machine whose architecture has no syscall table in the package the
+// profiler must fail instead of emitting a profile built from some other table.
+func c18ForeignMachines(run *vlib.Run, o *vlib.Oracles, ts []*vlib.Target, prof, elfAmd64 string) {
+	cx := targetByName(ts, "x86_64")
+	table := map[int]string{}
+	var nums []int
+	for n, nr := range o.Tables["x86_64"]["uapi"] {
+		if _, ok := cx.Num[n]; ok {
+			table[nr] = n
+			nums = append(nums, nr)
+		}
+	}
+	sort.Ints(nums)
+	img, err := os.ReadFile(elfAmd64)
+	if err != nil || len(img) < 64 {
+		run.Inconclusive("cannot read the ELF input")
+		return
+	}
+	var machines []int
+	for m := 0; m <= 300; m++ {
+		machines = append(machines, m)
+	}
+	machines = append(machines, 0x9026, 0xfeb0, 0xfeba, 0x1057, 0x4688, 0x5441, 0x7650, 0x7676, 0x8217, 0x9080, 0xa390, 0xbaab, 0xbeef, 0xffff)
+	r0 := caseRand(run, 424242)
+	for k := 0; k < run.N(10, 400); k++ {
+		machines = append(machines, 301+r0.Intn(65535-301))
+	}
+	th, err := vlib.NewToolHome()
+	if err != nil {
+		return
+	}
+	defer th.Remove()
+	listing := filepath.Join(th.Dir, "listing.txt")
+	os.WriteFile(listing, []byte(listingForNumbers(r0, nums[:40], false, table)), 0o644)
+	var mu sync.Mutex
+	refused := 0
+	vlib.Parallel(len(machines), func(i int) {
+		m := machines[i]
+		switch m {
+		case 3, 40, 62: // EM_386, EM_ARM, EM_X86_64: architectures with tables that the profiler knows
+			return
+		case 183: // EM_AARCH64: the package has a table for it; whether the profiler supports it is not part of the property
+			run.Count("machine_with_a_table_not_judged", 1)
+			return
+		}
+		b := append([]byte(nil), img...)
+		b[18], b[19] = byte(m), byte(m>>8)
+		target := filepath.Join(th.Dir, fmt.Sprintf("machine-%d", m))
+		if os.WriteFile(target, b, 0o755) != nil {
+			return
+		}
+		defer os.Remove(target)
+		res, err := th.Run(vlib.ToolRun{Argv: []string{prof, "-format", "config", target}, FakeMode: "emit", Listing: listing})
+		if err != nil || res.TimedOut {
+			run.SoftInconclusive("profiler run on a foreign-machine ELF did not finish")
+			return
+		}
+		run.Count("elf_machine_types_offered", 1)
+		if res.ExitCode == 0 && !res.Signaled && len(profileNames(res.Stdout)) > 0 {
+			run.Violation("profile-for-architecture-without-tables", fmt.Sprintf("a Go ELF binary of machine type %d (no syscall table for its architecture) gets a profile of %d names: %v...", m, len(profileNames(res.Stdout)), profileNames(res.Stdout)[:min(4, len(profileNames(res.Stdout)))]),
+				map[string]any{"check": "C18", "elf_machine": m, "stderr_tail": tail(res.Stderr, 400)})
+			return
+		}
+		mu.Lock()
+		refused++
+		mu.Unlock()
+	})
+	run.Count("elf_machine_types_refused", int64(refused))
 }
